@@ -106,8 +106,15 @@ type Program struct {
 	files []string
 }
 
-const repoDir = "/repo"
-const repoPkgDir = "/repo/trzsz"
+// repoDir is the tree under test: /repo (its current working tree). $VERIF_REPO points the tools at a scratch
+// worktree instead (used when trying a seeded change while a long background run is reading /repo).
+var repoDir = func() string {
+	if d := os.Getenv("VERIF_REPO"); d != "" {
+		return d
+	}
+	return "/repo"
+}()
+var repoPkgDir = repoDir + "/trzsz"
 
 // loadProgram loads /repo/trzsz from the working tree with the given overlay files (virtual path -> content).
 func loadProgram(overlay map[string][]byte) (*Program, error) {
